@@ -14,6 +14,7 @@ Terms:  ('lit', v) ('param', name) ('const', def) ('fn', def) ('ctor', Variant, 
         ('tryok', t) ('await', t) ('elem', t) ('unk', why) ('fresh', tag, n)
 """
 from facts import callee_of, call_args, loc
+import re
 import hirq
 import facts as facts_mod
 
@@ -2222,6 +2223,15 @@ def builtin_summary(I, cal, args, node, st):
         r = known_seq_summary(I, cal, name, args, node, st)
         if r is not None:
             return r
+    if name == 'try_from' and len(args) == 1 and args[0][0] == 'lit' and isinstance(args[0][1], int) and not isinstance(args[0][1], bool):
+        # checked integer conversion of a known number: Ok(n) when the target type holds it, Err otherwise
+        m_ = re.match(r'<(\w+) as core::convert::TryFrom<(\w+)>>::try_from', cal) or re.match(r'core::convert::num::<impl core::convert::TryFrom<(\w+)> for (\w+)>::try_from', cal)
+        if m_:
+            tgt = m_.group(1) if cal.startswith('<') else m_.group(2)
+            rng = INT_RANGE.get(tgt)
+            if rng is not None:
+                fits = rng[0] <= args[0][1] <= rng[1]
+                return [Out('val', ('ctor', 'Ok', (args[0],)) if fits else ('ctor', 'Err', (('unk', 'TryFromIntError'),)), st)]
     if name in ('is_empty', 'len') and args and args[0][0] == 'lit' and isinstance(args[0][1], (bytes, str)):
         return [Out('val', ('lit', len(args[0][1]) == 0 if name == 'is_empty' else len(args[0][1])), st)]
     if name in ('is_empty', 'len') and args and args[0][0] == 'vec' and cal.startswith('alloc::vec::Vec'):
